@@ -174,12 +174,13 @@ def model_sessions(out, tier):
     out.add_mc(f"MC_Bindings[<= {depth} calls]", r, {"MaxCalls": depth})
     sessions = []
     cps = lambda t: [ord(ch) for ch in t]
+    stride = 1 if tier == "quick" else 12       # depth 4 has 245k histories: TLC checks them all, every 12th is executed on the extension
     for i, ln in enumerate(lines):
-        if "REPLAY" not in ln:
+        if "REPLAY" not in ln or i % stride:
             continue
         start = ln.find(', "') + 2
         beh = json.loads(json.loads(ln[start:ln.rstrip().rfind(">>")]))
-        t1 = T1_TEXTS[i % len(T1_TEXTS)]
+        t1 = T1_TEXTS[(i // stride) % len(T1_TEXTS)]
         ops = [{"op": "create", "tk": 0, "mode": 2 if i % 2 else -1, "fields": "all", "projection": "surface"},
                {"op": "create", "tk": 1, "mode": 0, "fields": "all", "projection": "surface"}]
         for o in beh["ops"]:
@@ -188,7 +189,7 @@ def model_sessions(out, tier):
             if "text" in o:
                 o["text"] = cps(LONG if o["text"] == [9] else ("東京都" if o["op"] == "lookup" else t1))
             ops.append(o)
-        sessions.append({"sess": 100000 + len(sessions), "cfg": ["default", "full", "regex"][i % 3], "ops": ops})
+        sessions.append({"sess": 100000 + len(sessions), "cfg": ["default", "full", "regex"][(i // stride) % 3], "ops": ops})
     return sessions
 
 
